@@ -29,7 +29,7 @@ ASSUMPTIONS = [
 ]
 REQUIRED = {"all": ["renders_checked", "valid_updates", "rejected_missing_key", "rejected_bad_colour", "rejected_non_dict",
                     "rejected_padded_missing_key", "multi_object_histories", "lengths_10k_plus_1", "render_after_reject", "rejected_empty_mapping",
-                    "caller_edits_after_accept", "second_handle_updates"]}
+                    "caller_edits_after_accept", "second_handle_updates", "long_update_histories"]}
 NHIST = {"quick": 1000, "thorough": 8000}
 COLOURS = ['aqua', 'black', 'blue', 'fuchsia', 'gray', 'green', 'lime', 'maroon', 'navy', 'olive', 'orange', 'purple',
            'red', 'silver', 'teal', 'white', 'yellow']
@@ -128,7 +128,11 @@ def judge(case, rep, S):
     for o, s, m in zip(objs, seqs, models):
         check_render(rep, o.get_HTMLColorString(), s, m, "fresh object")
     hist = []
-    for step in range(rng.randint(1, 8)):
+    nsteps = rng.randint(1, 8)
+    if case["o"] % 12 == 0:
+        nsteps = rng.randint(25, 45)             # dozens of updates on the same objects
+        rep.cnt("long_update_histories")
+    for step in range(nsteps):
         k = rng.randrange(nobj)
         obj, model = objs[k], models[k]
         kind = rng.choice(["valid", "valid", "valid", "missing", "bad_colour", "bad_value_type", "non_dict", "padded_missing",
